@@ -87,8 +87,9 @@ type Interp struct {
 	hashes   []*hashModel
 	tolerant int // >0 while running package initialisers
 
-	sums    []*hashSum
-	lastNow *smt.Term
+	sums        []*hashSum
+	now         *smt.Term // frozen clock: symbolic instant + harness-controlled advances
+	timerBudget int
 
 	tmpDefined map[string]bool
 	allocSeen  map[string]bool
@@ -102,6 +103,9 @@ type Input struct {
 	Kind string // "u8","u16","u32","u64","bool","int","bytes"
 	Term *smt.Term
 	N    int // for bytes: count; terms follow as separate inputs
+	// Internal inputs are environment values drawn by an intrinsic (not by a
+	// vh* call in the harness): they are not part of the replay tape.
+	Internal bool
 }
 
 func (in *Interp) fresh(tag string, w int) *smt.Term {
@@ -553,8 +557,8 @@ func (in *Interp) callFunction(fn *ssa.Function, args []Value, env []Value) Valu
 			panic(unsupported{"no body for " + name})
 		}
 	}
-	if pol, ok := in.eng.opaquePkgs[pkgPathOf(fn)]; ok {
-		return in.opaqueCall(fn, args, pol)
+	if in.eng.isOpaquePkg(pkgPathOf(fn)) {
+		return in.opaqueCall(fn, args, "")
 	}
 	depth := 0
 	if in.top != nil {
@@ -772,6 +776,20 @@ func (in *Interp) prepareCall(fr *frame, c *ssa.CallCommon) (Value, []Value) {
 			panic(unsupported{fmt.Sprintf("invoke on %T", v)})
 		}
 		if recv.T == nil {
+			// a nil interface handed out by an opaque package (logger, metric):
+			// the call is opaque too
+			if n, ok := types.Unalias(c.Value.Type()).(*types.Named); ok && n.Obj().Pkg() != nil && in.eng.isOpaquePkg(n.Obj().Pkg().Path()) {
+				sig := c.Method.Type().(*types.Signature)
+				var res Value = TupleV{}
+				switch sig.Results().Len() {
+				case 0:
+				case 1:
+					res = in.zero(sig.Results().At(0).Type())
+				default:
+					res = in.zero(sig.Results())
+				}
+				return &FuncV{Name: "opaque", Native: func(in *Interp, args []Value) Value { return res }}, nil
+			}
 			in.throwRuntime("invalid memory address or nil pointer dereference (nil interface method call " + c.Method.Name() + ")")
 		}
 		m := in.lookupMethod(recv.T, c.Method)
